@@ -53,7 +53,9 @@ def run_scenario(chk, sc, cfgseed, dtype, axes, flavour="sched", workers=None, c
     # boxes dealt over the files round-robin, from the first file or from the last one: with an uneven deal the files with
     # the most boxes (the largest, read first) are then the first-named or the last-named ones
     rev = cfgseed % 2 == 1
-    ap = lat.ap("A", ["u", "v", "w"], files_of=lambda lv, b: (nfiles[lv] - (b - 1) % nfiles[lv]) if rev else ((b - 1) % nfiles[lv] + 1),
+    # field names: plain, or three names that differ only by the case of their letters (distinct fields)
+    fnames = [["u", "v", "w"], ["P", "p", "rho"], ["temp", "Temp", "TEMP"], ["u", "v", "w"], ["y(H2)", "Y(h2)", "Y(H2)"]][cfgseed % 5]
+    ap = lat.ap("A", fnames, files_of=lambda lv, b: (nfiles[lv] - (b - 1) % nfiles[lv]) if rev else ((b - 1) % nfiles[lv] + 1),
                 shuffle=lambda lv, f, v: rng.sample(v, len(v)))
     # integer grids: values that the integer type can hold (the conversion of NaN / inf / 1e300 to an integer is undefined)
     flds = lattice.Fields(lat, cfgseed, payload="wild" if cfgseed % 2 and not dtype.startswith("int") else "tame")
